@@ -56,20 +56,11 @@ fn error_class(text: &str) -> (String, Vec<String>) {
             None => (rest.trim_end_matches(':').to_string(), String::new()),
         };
         ("killed".into(), vec![killer, comment])
-    } else if t.contains("user mask doesn't match") {
-        ("maskmismatch".into(), vec![])
-    } else if t.contains("Wrong source") {
-        ("wrongsource".into(), vec![])
-    } else if t.contains("No command supplied") {
-        ("nocommand".into(), vec![])
-    } else if t.starts_with("Unknown subcommand") {
-        ("unknownsub".into(), vec![])
-    } else if t.starts_with("Parameter") && t.contains("doesn't match") {
-        ("parammismatch".into(), vec![])
-    } else if t.starts_with("Wrong parameter") {
-        ("wrongparam".into(), vec![])
     } else {
-        ("other".into(), vec![t.to_string()])
+        // every other ERROR line of the server answers an unacceptable line or a refused registration; which wording
+        // it uses (wrong parameter, unknown subcommand, parameter count mismatch, mask mismatch ...) is not the
+        // business of any listed property, so a rewording must not look like a difference
+        ("invalid".into(), vec![])
     }
 }
 
